@@ -55,17 +55,22 @@ def normMd (md : Option (List Md)) (nIds : Nat) : Option (List Md) :=
   | none => none
   | some m => if m.length == nIds && m.all (·.isEmpty) then none else some m
 
-def hasDup (ids : List Id) : Bool := ids.eraseDups.length != ids.length
+/-- `set(ids)` as a list (one representative per distinct id) -/
+def dedup : List Id → List Id
+  | [] => []
+  | a :: t => if a ∈ t then dedup t else a :: dedup t
+
+def hasDup (ids : List Id) : Bool := (dedup ids).length != ids.length
 
 /-- `errcheck(self)` under the default profile: `empty` (ignore) is visited first and ends the
 test when it fires; then obsdup, obsmdsize, obssize, sampdup, sampmdsize, sampsize (raise). -/
 def errcheckDefault (nrows ncols : Nat) (obsIds sampIds : List Id) (omd smd : Option (List Md)) : Bool :=
   if sampIds.isEmpty || obsIds.isEmpty then true       -- `empty` fires: reaction ignore, nothing else tested
   else
-    !(nrows != obsIds.eraseDups.length) &&
+    !(nrows != (dedup obsIds).length) &&
     !(match omd with | some m => nrows != m.length | none => false) &&
     !(nrows != obsIds.length) &&
-    !(ncols != sampIds.eraseDups.length) &&
+    !(ncols != (dedup sampIds).length) &&
     !(match smd with | some m => ncols != m.length | none => false) &&
     !(ncols != sampIds.length)
 
@@ -269,7 +274,15 @@ structure Observed where
   sumSamp : List Rat
   nnz : Nat
   density : Rat
+  accessorErrors : List String := []   -- accessors that raised on a table with both axes non-empty
   deriving Repr
+
+def absR (x : Rat) : Rat := if x < 0 then -x else x
+
+/-- equality up to binary64 rounding of a sum/quotient: relative 2⁻⁴⁰ of the magnitude `scale` -/
+def approxEq (a b scale : Rat) : Bool := a == b || absR (a - b) * 1099511627776 ≤ scale
+
+def sumAbs (r : List Rat) : Rat := (r.map absR).foldl (· + ·) 0
 
 open Codec in
 def holds (o : Observed) : Verdict :=
@@ -282,6 +295,7 @@ def holds (o : Observed) : Verdict :=
       (o.sampIds.zip r).filterMap (fun (si, v) => if v != 0 then some (oi, si) else none))
   let expNnz := expNonzero.length
   allV [
+    chk "every accessor answers" o.accessorErrors.isEmpty,
     chk "shape = (|obs ids|, |sample ids|)" (o.shape == (n, m)),
     chk "dense matrix has the declared shape" (grid.length == n && grid.all (·.length == m)),
     chk "observation ids unique" (!hasDup o.obsIds),
@@ -305,11 +319,13 @@ def holds (o : Observed) : Verdict :=
           match o.obsIds[i]?, o.obsIds[j]? with | some a, some b => some (a, b) | _, _ => none))),
     chk "nonzero() lists exactly the non-zero cells" (!nonEmpty ||
       (o.nonzero.all (expNonzero.contains ·) && expNonzero.all (o.nonzero.contains ·) && o.nonzero.length == expNnz)),
-    chk "sum(whole)" (o.sumWhole == sumRow (grid.map sumRow)),
-    chk "sum(observation)" (o.sumObs == grid.map sumRow),
-    chk "sum(sample)" (o.sumSamp == (List.range m).map (fun j => sumRow (col j))),
+    chk "sum(whole)" (approxEq o.sumWhole (sumRow (grid.map sumRow)) (sumAbs (grid.map sumAbs))),
+    chk "sum(observation)" (o.sumObs.length == n &&
+      (o.sumObs.zip grid).all (fun (x, r) => approxEq x (sumRow r) (sumAbs r))),
+    chk "sum(sample)" (o.sumSamp.length == m &&
+      (o.sumSamp.zip ((List.range m).map col)).all (fun (x, c) => approxEq x (sumRow c) (sumAbs c))),
     chk "nnz" (o.nnz == expNnz),
-    chk "density = nnz / (N*M)" (if nonEmpty then o.density * ((n * m : Nat) : Rat) == (expNnz : Rat) else o.density == 0)
+    chk "density = nnz / (N*M)" (if nonEmpty then approxEq (o.density * ((n * m : Nat) : Rat)) (expNnz : Rat) (expNnz : Rat) else o.density == 0)
   ]
 
 /-- what the model's accessors report for a state -/
@@ -317,22 +333,24 @@ def observe (s : TState) (unknownProbes : List (Axis × Id)) : Observed :=
   let okOr (d : List Rat) (e : Except Err (List Rat)) := match e with | .ok v => v | .error _ => d
   let idx (ax : Axis) (id : Id) : Option Nat := match indexAcc s ax id with | .ok i => some i | .error _ => none
   let n := s.obs.ids.length
+  -- `__getitem__` refuses every read on a table with an empty axis: no per-ID accessor answers
+  let ne {γ : Type} (l : List γ) : List γ := if s.obs.ids.isEmpty || s.samp.ids.isEmpty then [] else l
   { obsIds := s.obs.ids, sampIds := s.samp.ids, shape := (s.nrows, s.ncols),
     indexObs := s.obs.ids.map (idx .obs), indexSamp := s.samp.ids.map (idx .samp),
     existsObs := s.obs.ids.map (existsAcc s .obs), existsSamp := s.samp.ids.map (existsAcc s .samp),
     probesUnknown := unknownProbes.map (fun (ax, id) => (idx ax id).isNone && !(existsAcc s ax id)),
     omdLen := s.obs.md.map (·.length), smdLen := s.samp.md.map (·.length),
     dense := s.rows,
-    dataObs := s.obs.ids.map (fun i => okOr [] (dataAcc s .obs i)),
-    dataSamp := s.samp.ids.map (fun i => okOr [] (dataAcc s .samp i)),
-    cells := s.obs.ids.map (fun o => s.samp.ids.map (fun sa => match valueAcc s o sa with | .ok v => v | .error _ => 0)),
-    iterObs := s.obs.ids.zip s.rows,
-    iterSamp := s.samp.ids.zip ((List.range s.ncols).map (colAt s.rows)),
-    pairwiseObs := (List.range n).flatMap (fun i => ((List.range n).filter (· > i)).filterMap (fun j =>
+    dataObs := ne <| s.obs.ids.map (fun i => okOr [] (dataAcc s .obs i)),
+    dataSamp := ne <| s.samp.ids.map (fun i => okOr [] (dataAcc s .samp i)),
+    cells := ne <| s.obs.ids.map (fun o => s.samp.ids.map (fun sa => match valueAcc s o sa with | .ok v => v | .error _ => 0)),
+    iterObs := ne <| s.obs.ids.zip s.rows,
+    iterSamp := ne <| s.samp.ids.zip ((List.range s.ncols).map (colAt s.rows)),
+    pairwiseObs := ne <| (List.range n).flatMap (fun i => ((List.range n).filter (· > i)).filterMap (fun j =>
       match s.obs.ids[i]?, s.obs.ids[j]? with
       | some a, some b => some ((a, okOr [] (dataAcc s .obs a)), (b, okOr [] (dataAcc s .obs b)))
       | _, _ => none)),
-    nonzero := nonzeroAcc s,
+    nonzero := ne <| nonzeroAcc s,
     sumWhole := sumWhole s, sumObs := sumObs s, sumSamp := sumSamp s, nnz := nnzAcc s,
     density := if s.obs.ids.isEmpty || s.samp.ids.isEmpty then 0 else (nnzAcc s : Rat) / ((s.samp.ids.length * s.obs.ids.length : Nat) : Rat) }
 
@@ -399,7 +417,8 @@ def asObserved (j : Json) : R Observed := do
         | [a, b] => pure ((← asStr a), (← asStr b))
         | _ => .error "nonzero entry") j "nonzero"),
     sumWhole := (← asRat (← fld j "sum_whole")), sumObs := (← listF asRat j "sum_obs"),
-    sumSamp := (← listF asRat j "sum_samp"), nnz := (← natF j "nnz"), density := (← asRat (← fld j "density")) }
+    sumSamp := (← listF asRat j "sum_samp"), nnz := (← natF j "nnz"), density := (← asRat (← fld j "density")),
+    accessorErrors := (match optFld j "accessor_errors" with | none => [] | some v => (asList asStr v).toOption.getD ["?"]) }
 
 def idVecToJson (p : Id × List Rat) : Json := .arr #[.str p.1, ratsToJson p.2]
 
@@ -422,9 +441,13 @@ def observedToJson (o : Observed) : Json :=
 
 /-- order-free comparison of the two observations (nonzero() order is layout dependent) -/
 def sameObserved (a b : Observed) : Bool :=
-  let key (o : Observed) := (observedToJson { o with nonzero := [] }).compress
+  let key (o : Observed) := (observedToJson { o with nonzero := [], sumWhole := 0, sumObs := [], sumSamp := [], density := 0 }).compress
+  let ap (x y : Rat) := approxEq x y (absR x + absR y + sumAbs (a.dense.map sumAbs))
   key a == key b && a.nonzero.all (b.nonzero.contains ·) && b.nonzero.all (a.nonzero.contains ·) &&
-    a.nonzero.length == b.nonzero.length
+    a.nonzero.length == b.nonzero.length &&
+    ap a.sumWhole b.sumWhole && ap a.density b.density &&
+    a.sumObs.length == b.sumObs.length && (a.sumObs.zip b.sumObs).all (fun (x, y) => ap x y) &&
+    a.sumSamp.length == b.sumSamp.length && (a.sumSamp.zip b.sumSamp).all (fun (x, y) => ap x y)
 
 /-- request: {"steps":[{"ops":[model ops for this step], "obs": Observed, "md": {"omd":…,"smd":…}}…], "probes":[[axis,id]…]}
     the first step's ops must start with a construct (the start table). -/
@@ -449,7 +472,9 @@ def handle (req : Json) : R Json := do
       | some mj =>
         let om := (optF asMdList mj "omd").toOption.getD none
         let sm := (optF asMdList mj "smd").toOption.getD none
-        om == st.obs.md && sm == st.samp.md
+        let sortE (e : Md) : Md := e.mergeSort (fun a b => a.1 ≤ b.1)
+        let norm (x : Option (List Md)) := x.map (·.map sortE)
+        norm om == norm st.obs.md && norm sm == norm st.samp.md
     let agree := sameObserved mobs obs && mdAgree
     out := out.push (Json.mkObj (verdictToJson v ++ [("model_holds", .bool (holds mobs).isNone), ("agree", .bool agree),
       ("model", if agree then .null else Json.mkObj [("obs", observedToJson mobs),
